@@ -148,6 +148,28 @@ search:
 			}
 		}
 	}
+	// longer histories: a static route, then routes that could shadow it or share its prefix, with Headers() calls in between
+	if !found {
+	triples:
+		for _, first := range []string{"/a", "/a/b", "/", "/a/b/c", "/a/"} {
+			for _, second := range []string{"/{x}", "/a/{y}", "/{**}", "/a/?b", "/{t}/s/h", "/a/b/c", "/b/?{o}"} {
+				for _, third := range []string{"/a/b", "/q/?r", "/{x}", "/a/{y}", "/"} {
+					if first == second || first == third || second == third {
+						continue
+					}
+					for _, ho := range [][]c10Op{nil, {{Kind: "headers", Target: 0}}, {{Kind: "headers", Target: 2}}, {{Kind: "headers", Target: 0}, {Kind: "noheaders", Target: 0}}} {
+						ops := []c10Op{{Kind: "route", Route: first}, {Kind: "any", Route: second}}
+						ops = append(ops, ho...)
+						ops = append(ops, c10Op{Kind: "route", Route: third})
+						if try(ops) {
+							found = true
+							break triples
+						}
+					}
+				}
+			}
+		}
+	}
 	fmt.Printf("REPLAY-STATS %d histories (registrations and Headers calls), %d requests compared, found=%v\n", hist, count, found)
 	if found {
 		t.Fail()
